@@ -66,7 +66,7 @@ def run(tier):
         links.append((str(n), link))
     rcc = run_commands(cc, wd, workers=16, timeout_ms=120000)
     failed = {}
-    for cid, r in rcc.items():
+    for cid, r in sorted(rcc.items()):
         if r["rc"] != 0:
             failed.setdefault(int(cid.split(":")[0]), (r.get("stderr_head", "") + r["stderr"]))
     rl = run_commands([l for l in links if int(l[0]) not in failed], wd, workers=16, timeout_ms=120000)
